@@ -1331,7 +1331,7 @@ class Project:
                         logger.info("Moved job to correct workspace.")
 
                 job = self.open_job(statepoint)
-            except KeyError:
+            except (KeyError, JobsCorruptedError, ValueError):
                 logger.critical(
                     f"Unable to look up state point for job with id '{job_id}'."
                 )
